@@ -12,6 +12,12 @@ theorem getD_set_eq {α} (l : List α) (i : Nat) (x d : α) (h : i < l.length) :
 theorem getD_set_ne {α} (l : List α) (i j : Nat) (x d : α) (h : i ≠ j) : (l.set i x).getD j d = l.getD j d := by
   simp [List.getD_eq_getElem?_getD, List.getElem?_set_ne h]
 
+/-- data sectors of block `b` are the flat sectors `8 b .. 8 b + 7` -/
+theorem block_sectors_flat (b s : Nat) (_hs : s < 8) : idx (blockTrack b) (blockFirstSector b + s) = 8 * b + s := by
+  unfold idx blockTrack blockFirstSector
+  have : Gen.Disk.sectorsPerTrack = 16 := rfl
+  rw [this]; omega
+
 theorem putSector_length (sd : Side) (t s : Nat) (v : Bytes) : (putSector sd t s v).length = sd.length := by
   simp [putSector]
 
